@@ -246,7 +246,9 @@ func batchMain(c *Check, tier string) int {
 		if len(a.samples) < 3 && o.NonTrivial && len(o.Scenario) > 0 {
 			a.samples = append(a.samples, o.Scenario)
 		}
-		if o.Race != "" {
+		if o.Race != "" && raceInHarness(o.Race) {
+			a.harnessErrs = append(a.harnessErrs, "data race inside the simulator's own code: "+tail(o.Race, 1500))
+		} else if o.Race != "" {
 			a.extra["race_reports"]++
 			o.Items = append(o.Items, raceItem(o.Race))
 		}
@@ -396,6 +398,11 @@ func handleCrashes(c *Check, tier string, seed int, pool *Pool, crashes []*Outco
 				raceText = re.Crashed
 			}
 		}
+		if isRaceReport(raceText) && raceInHarness(raceText) {
+			fmt.Fprintf(os.Stderr, "HARNESS: data race inside the simulator's own code (not judged):\n%s\n", tail(raceText, 3000))
+			res.harness = true
+			continue
+		}
 		if isRaceReport(raceText) {
 			cr.Crashed = raceText
 			// a -race build: the testing package fails the bubble after a race report and the worker exits. The report itself is
@@ -487,6 +494,34 @@ func handleCrashes(c *Check, tier string, seed int, pool *Pool, crashes []*Outco
 
 func isRaceReport(s string) bool {
 	return strings.Contains(s, "WARNING: DATA RACE") || strings.Contains(s, "Previous write at 0x") || strings.Contains(s, "Previous read at 0x")
+}
+
+// raceAccessFrames returns the innermost frame of each of the two accesses of a race report.
+func raceAccessFrames(report string) []string {
+	var out []string
+	lines := strings.Split(report, "\n")
+	for i, l := range lines {
+		t := strings.TrimSpace(l)
+		if (strings.HasPrefix(t, "Read at ") || strings.HasPrefix(t, "Write at ") || strings.HasPrefix(t, "Previous read at ") || strings.HasPrefix(t, "Previous write at ") ||
+			strings.HasPrefix(t, "Atomic read at ") || strings.HasPrefix(t, "Atomic write at ") || strings.HasPrefix(t, "Previous atomic ")) && i+1 < len(lines) {
+			out = append(out, strings.TrimSpace(lines[i+1]))
+		}
+	}
+	return out
+}
+
+// raceInHarness: both racing accesses are in harness code (package verif/...): a defect of the simulator, not of data-server.
+func raceInHarness(report string) bool {
+	fr := raceAccessFrames(report)
+	if len(fr) == 0 {
+		return false
+	}
+	for _, f := range fr {
+		if !strings.HasPrefix(f, "verif/") {
+			return false
+		}
+	}
+	return true
 }
 
 // raceItem turns a Go race detector report into a C17 discrepancy; the first data-server frame identifies it.
